@@ -115,6 +115,16 @@ def _close(a, b, rtol=RTOL):
     return bool(np.all(np.abs(a - b) <= rtol * max(1.0, float(np.abs(b).max()) if b.size else 1.0)))
 
 
+def _one(ctx, got, exp):
+    """a SINGLE node observed at a single time: whether the observation is a vector of length one or a 0-d array is not
+    documented (TimeDependentLinearPDE.observe squeezes every axis of length one) - the value is compared, the shape recorded"""
+    got = np.asarray(got, dtype=float)
+    if np.size(exp) == 1 and got.size == 1 and got.shape != np.shape(exp):
+        ctx.observations["single_node_single_time_observation_shape"] = repr(got.shape)
+        return got.reshape(np.shape(exp))
+    return got
+
+
 def _pde_mod():
     from cuqiverif.core import MachineryError
     try:
@@ -472,7 +482,7 @@ def check_time(ctx, cuqi, c, idx):
     okey = "observe_time/traj/%s/n=%d/nt=%d/omap=%s" % (c["omode"], n, len(T), c["omap"])
     ctx.case(("time-observe", c["A0"], c["T"], c["th"], method, c["omode"], c["omap"]), facet="observe/" + c["omode"])
     try:
-        obs = np.asarray(_quiet(lambda: pde.observe(u)), dtype=float)
+        obs = _one(ctx, _quiet(lambda: pde.observe(u)), obs_exp)
     except Exception as e:
         _refused(ctx, c.get("order", "asc"), lambda tag: okey + "/" + tag, c, "observe", e, obs_exp)
         return
@@ -487,7 +497,7 @@ def check_time(ctx, cuqi, c, idx):
             pde_m = cuqi.pde.TimeDependentLinearPDE(form, **kw)       # fresh object, first assembled for another parameter
             model = _quiet(lambda: cuqi.model.PDEModel(pde_m, range_geometry=len(gobs), domain_geometry=2))
             _quiet(lambda: model.forward(th + 1.0))
-            y = np.asarray(_quiet(lambda: model.forward(th)), dtype=float)
+            y = _one(ctx, _quiet(lambda: model.forward(th)), obs_exp)
         except Exception as e:
             ctx.mismatch(key + "/model_raises", c, "PDEModel.forward raised %r" % (e,), obs_exp)
             return
@@ -778,7 +788,7 @@ def check_solve_seq(ctx, cuqi, c, idx):
                                  [p_ for p_, _ in calls][:4])
                     return
                 exp = _seq_expected_obs(c, e)
-                obs = np.asarray(_quiet(lambda: pde.observe(sol)), dtype=float)
+                obs = _one(ctx, _quiet(lambda: pde.observe(sol)), exp)
                 if obs.shape != exp.shape or not _close(obs, exp, 1e-9):
                     ctx.mismatch(sig("observe_value"), c, "observe(solve()) is not the last time level followed by the observation map",
                                  exp, obs, detail={"step": len(path)})
@@ -787,9 +797,9 @@ def check_solve_seq(ctx, cuqi, c, idx):
                 th, how = param(e["val"]["th"], k + 1)
                 keep = np.array(e["val"]["th"], dtype=float)
                 del calls[:]
-                y = np.asarray(_quiet(lambda: model.forward(th)), dtype=float)
-                cur = keep
                 exp = _seq_expected_obs(c, e)
+                y = _one(ctx, _quiet(lambda: model.forward(th)), exp)
+                cur = keep
                 if y.shape != exp.shape or not _close(y, exp, 1e-9):
                     ctx.mismatch(sig("forward_value"), c,
                                  "PDEModel.forward(%s) after %s is not Observe(Solve(Assemble(theta))) for THIS parameter: the last level of "
